@@ -3,6 +3,12 @@ import json, os
 from . import lib, gen_progs
 
 LEVEL = "translation_validation"
+MANIFEST = dict(
+    design='DESIGN.md §4 C06, §3 (SrcSem rules)',
+    technique="TLC model-checks the product of the TLA+ script machine (AstSem) on the real parser's block tree and on the real desugar_blocks output, from every initial register valuation x difficulty (translation validation of each pass run)",
+    text="For each generated structured program the harness exports the block tree as the real parser produced it and the flat statement list the real desugar_blocks pass produced (both counting-jump flavours); TLC explores the product of the L1 machine on both from all valuations of the mentioned registers over a 3/4-value domain and all difficulties and checks at every state that the flat side's call log is a prefix of the source's, and at termination equal logs (with time and real time of each call), final time, real time and registers.",
+    note='Trusted: TLC; structural AST->JSON exporter and JSON->text renderer; the reading of doc/syntax.md in AstSem.tla (falling through never changes time, implicit jumps set the lexical time of their target). Bounded: 150 source steps, non-negative times() counts, dyadic floats.',
+)
 
 
 def harness_pairs(chk, progs, tag):
